@@ -142,6 +142,8 @@ where
     Traits: ?Sized + Trait, 
     M: MemBuilder,
     IterItem: IteratorItem<'a, AnyVecPtr<Traits, M>>,
+    // Iterator over shared references is Send only if items are.
+    IterItem::Item: Send,
     AnyVec<Traits, M>: Send
 {}
 #[allow(renamed_and_removed_lints, suspicious_auto_trait_impls)]
